@@ -98,7 +98,7 @@ def main():
      "setup_cmd": "bin/setup",
      "hooks": {
        "guard": "verif",
-       "enable": "no hook commits in /repo: every check runs tools/gen, which reads /repo's current working tree and builds the harness with `go build -tags verif -overlay build/ovl/overlay.json` (time->vtime import rewrite, added zz_verif.go accessor files, replaced error-inject/default.go)",
+       "enable": "no hook commits in /repo: every check runs tools/gen, which reads /repo's current working tree and builds the harness with `go build -tags verif -overlay build/ovl/overlay.json` (time->vtime import rewrite, added zz_verif.go accessor files, replaced error-inject/default.go, sorted iteration of map ranges in package controller, startReplica's clone bracket extracted into a generated function; engine E-D adds its go/chan/select/sync rewrite)",
        "baseline_off_cmd": "cd /repo && GOFLAGS=-mod=mod GOPROXY=off GOSUMDB=off go test -vet=off -count=1 ./util/...",
        "source_commits": [],
        "add_only": True,
